@@ -23,7 +23,8 @@ type IntV struct {
 // FloatV: only concrete float constants are supported.
 type FloatV struct {
 	F  float64
-	Ns string // if set: the value is (Int term Ns)/1e9 (time.Duration.Seconds of a symbolic duration)
+	Ns string // if set: the value is (Int term Ns)/Div (time.Duration.Seconds/Minutes/Hours of a symbolic duration)
+	Div int64
 }
 
 type BoolV struct{ T string } // "true"/"false" are literals
@@ -42,6 +43,7 @@ type StrV struct {
 	C   []string
 	Pre string // opaque only: a known literal prefix of the value
 	Min int    // opaque only: a known lower bound of the length
+	FromInt string // opaque only: the value is the decimal spelling of this Int term
 }
 
 type TimeV struct{ T string } // Int: ns since Unix epoch (mathematical); zeroTime is year 1
